@@ -1,5 +1,5 @@
 #!/usr/bin/env python3
-"""C35 (collision detection) for sphere - sphere and half-space - sphere pairs at lattice poses (engine E7d).
+"""C35 (collision detection) for sphere - sphere, half-space - sphere and half-space - brick pairs at lattice poses (engine E7d).
 
 spec/Lattice/LatticeGeom.tla evaluates exactly, per case, whether the shapes overlap (a comparison of rationals), the
 centre of each surface in the other's frame and the squared centre distance, and checks that a common rigid motion
@@ -50,6 +50,8 @@ def generate(tier, seed):
         cases.append({"kind": "ss", "r1": r1, "r2": r2, "X1": X1, "X2": X2, "Xc": pose(r, 4)})
     for _ in range(n):
         cases.append({"kind": "hs", "r1": 0, "r2": r.randint(1, 4), "X1": pose(r, 3), "X2": pose(r, 4), "Xc": pose(r, 4)})
+    for _ in range(n):      # bricks: faces, edges and corners down (ties between vertices when a face or an edge is parallel to the plane)
+        cases.append({"kind": "hb", "r1": 0, "r2": 0, "h": [r.randint(1, 3) for _ in range(3)], "X1": pose(r, 3), "X2": pose(r, 4), "Xc": pose(r, 4)})
     return cases
 
 
@@ -79,8 +81,8 @@ def main():
                                    extra=["-I" + os.path.join(VERIF, "harness")], libs=("SimTKmath", "SimTKcommon"))
     cov = {"states": 0, "transitions": 0, "traces_validated_against_impl": 0, "samples": []}
     cases = [json.load(open(replay))["replay"]["case"]] if replay else generate(tier, vlib.seed())
-    KEEP = ("kind", "r1", "r2", "X1", "X2", "Xc")
-    cases = [{k: c[k] for k in KEEP} for c in cases]
+    KEEP = ("kind", "r1", "r2", "X1", "X2", "Xc", "h")
+    cases = [{k: c[k] for k in KEEP if k in c} for c in cases]
     pfile = os.path.join(work, "cases.ndjson")
     with open(pfile, "w") as f:
         for c in cases:
@@ -172,6 +174,22 @@ def main():
                         bad(name + "/surface-indices", "surfaces reported as (%s, %s)" % (t["s1"], t["s2"]))
                 elif t["n"] > 1:
                     bad(name + "/several-contacts", "%d contacts for one pair" % t["n"])
+        elif kind == "hb":
+            depth = w["depthB"]
+            lowest = set(int(v) for v in got[o["i"] - 1]["r"]["lowest"])
+            for name in ("tracked", "trackedMoved"):
+                t = o[name]
+                if not t["ok"]:
+                    bad(name + "/failed", "trackContact returned false")
+                    continue
+                if not touching and bool(t["contact"]) != bool(overlap):
+                    bad(name + "/contact-iff-overlap", "overlap is %s (deepest vertex at depth %s) but contact reported = %s" % (overlap, depth, t["contact"]))
+                    continue
+                if t["contact"]:
+                    close(name + "/depth", depth, t["depth"], 10)
+                    if t["vertex"] not in lowest:
+                        bad(name + "/lowest-vertex", "vertex %s reported, the deepest vertices are %s (x_H of the eight vertices: %s)" % (t["vertex"], sorted(lowest), w["xs"]))
+                    close(name + "/brick-origin-in-H", w["in1"], t["pHB"], 10)
         else:
             depth = w["depthH"]
             c_in_h = w["in1"]
